@@ -500,7 +500,14 @@ def run_case(case):
             entries.append(("ODMLReader.from_file(fileobj:fd)", True,
                             lambda: ODMLReader("XML", show_warnings=False).from_file(
                                 os.fdopen(os.open(path, os.O_RDONLY), "rb"))))
+            entries.append(("XMLReader.strict.from_file(fileobj:text)", False,
+                            lambda: XMLReader(show_warnings=False).from_file(
+                                open(path, "r", encoding="utf-8"))))
             if text is not None:
+                import io
+                entries.append(("XMLReader.lenient.from_file(fileobj:StringIO)", True,
+                                lambda: XMLReader(ignore_errors=True, show_warnings=False).from_file(
+                                    io.StringIO(text))))
                 entries.append(("XMLReader.lenient.from_string(str)", True,
                                 lambda: XMLReader(ignore_errors=True, show_warnings=False).from_string(text)))
                 entries.append(("ODMLReader.from_string(str)", False,
